@@ -1,6 +1,6 @@
 PROPERTY = 'C12'
 LEVEL = 'proof'
-VERUS = ['verus/C12.rs']
+VERUS = ['verus/C12.rs', 'verus/C12_deltas.rs']
 TRUSTED = [
     'prelude / monomorphisation / U256 contract as in C01 (instance u128, 20 decimals); bound_magnitude, apply_factor, apply_exponent_factor, div_to_factor, to_signed, to_opposite_signed, checked_mul_div{,_ceil}, checked_round_up_div are called through their C01 contracts, re-proved in this same run',
     'carrier UpdateFundingState{market: FundingMarket{params, factor_per_second}} for `Self`: `self.market.funding_fee_params()` (fallible) and `self.market.funding_factor_per_second()` as field reads -- the method reads nothing else; carrier FundingFeeParams (field list compared each run, R11), its accessors and change() extracted and proved',
@@ -8,14 +8,14 @@ TRUSTED = [
     'the repository debug_assert!(!price.is_zero()) in pack_to_funding_amount_per_size is kept as a proved assertion (R7) under the call-site precondition price != 0',
 ]
 UNVERIFIED = [
-    'the action UpdateFundingState::execute is under contract with next_funding_amount_per_size as an ASSUMED call returning an arbitrary report (the rate inside it: unit C12.next_funding_factor_per_second; the deltas: set_deltas in C08) - the index clause needs only that its eight deltas are unsigned, which is their type; Pool::apply_delta_to_long_amount / _short_amount are assumed trait contracts (store-side pool C15); the funding clock is a ghost log. "A position\'s pending funding fee is never negative" is the unsigned result of unpack_to_funding_amount_delta (which FAILS when an index moved backwards) - proved here; the position-side call is C08',
+    'the action UpdateFundingState::execute is under contract with next_funding_amount_per_size as an ASSUMED call returning an arbitrary report (the rate inside it: unit C12.next_funding_factor_per_second; the deltas: UpdateFundingState::set_deltas is a unit here too, verus/C12_deltas.rs over verus/inc/funding_deltas.rs shared with C08) - the index clause needs only that its eight deltas are unsigned, which is their type; Pool::apply_delta_to_long_amount / _short_amount are assumed trait contracts (store-side pool C15); the funding clock is a ghost log. "A position\'s pending funding fee is never negative" is the unsigned result of unpack_to_funding_amount_delta (which FAILS when an index moved backwards) - proved here; the position-side call is C08',
     'non-unit exponents of apply_exponent_factor (rust_decimal branch): the exact non-adaptive formula is stated for whole-unit exponents only; the bounds hold for every exponent',
     'store-side implementation of funding_fee_params() (config reads: C16) and of the clock (just_passed_in_seconds_for_funding)',
 ]
 ASSUMPTIONS = ['pack_to_funding_amount_per_size is called with a non-zero price (Prices::validate at the action entry; the repository asserts it in debug builds)']
 MANIFEST = dict(engine='verus',
-    technique='Verus contracts on the action UpdateFundingState::execute (loop over the (side, collateral) walk with a count-based invariant, market carrier with the four index pools and a ghost clock log), apply_delta_to_funding_amount_per_size / apply_delta_to_claimable_funding_amount_per_size, the report accessors, on UpdateFundingState::next_funding_factor_per_second (on a carrier for Self), FundingFeeParams::change and accessors, pack_to_funding_amount_per_size and unpack_to_funding_amount_delta, extracted from /repo each run, over the C01 contracts; native replay on TestMarket<u128,20> with a big-integer oracle',
-    text='The action: each of the eight per-size indices (funding / claimable x side x collateral token) moves UP by exactly its unsigned delta, once, whatever the order of the walk - none ever decreases; the stored rate becomes the reported next rate; the funding clock is read and restarted exactly once. '
+    technique='(deltas: Verus contract on UpdateFundingState::set_deltas - loop over the two collateral tokens - with lemmas never-negative / receivers-never-above-payers, verus/C12_deltas.rs) Verus contracts on the action UpdateFundingState::execute (loop over the (side, collateral) walk with a count-based invariant, market carrier with the four index pools and a ghost clock log), apply_delta_to_funding_amount_per_size / apply_delta_to_claimable_funding_amount_per_size, the report accessors, on UpdateFundingState::next_funding_factor_per_second (on a carrier for Self), FundingFeeParams::change and accessors, pack_to_funding_amount_per_size and unpack_to_funding_amount_delta, extracted from /repo each run, over the C01 contracts; native replay on TestMarket<u128,20> with a big-integer oracle',
+    text='The deltas of one update: for each collateral token the payers index delta is the funding value packed over the paying side open interest in that token at the token MAX price with both divisions rounded UP, stored in the slot of (paying side, token); the receivers claimable delta is the same value at the same price over the receiver interest rounded DOWN, stored in the slot of (receiving side, token); a delta is never negative and over the same interest the receivers delta never exceeds the payers. The action: each of the eight per-size indices (funding / claimable x side x collateral token) moves UP by exactly its unsigned delta, once, whatever the order of the walk - none ever decreases; the stored rate becomes the reported next rate; the funding clock is read and restarted exactly once. '
          + 'Deductive proof, unbounded over all open interests, durations, stored rates and parameter sets: with adaptive funding the rate used for the next period has a magnitude within [min, max] and the stored next rate within [0, max] (or the call fails, e.g. when min > max); without adaptive funding the rate is exactly min(raw, max) with raw = funding factor x |long - short|^e / (long + short) (whole-unit exponents), nothing is stored, and the larger side pays; no rate is produced without open interest; change() follows the two thresholds and increases against the skew. Funding amounts: pack = value x adjustment x UNIT / open interest / price with both divisions rounded the requested way (payer up, receiver down; lemma: payer >= receiver), unpack = size x (latest index - position index) / (adjustment x UNIT), computed only when the index did not go backwards and never negative. ONE KNOWN FINDING: the lower bound does not hold in the non-adaptive mode (listed with a concrete input).',
     note='Known finding C12::finding_non_adaptive_rate_below_minimum (by design, not repaired). The action loop that adds the deltas to the index pools is located, not proved (listed).')
 
@@ -82,10 +82,5 @@ FALLBACK_OBS = ['C12.next_funding_factor_per_second']
 
 
 def extra(res, repo, tier, seed):
-    import os, re
-    s = open(os.path.join(repo, 'crates/model/src/action/update_funding_state.rs')).read()
-    # the two `.to_signed()?` anchors of the action are gone: UpdateFundingState::execute is a unit now
-    for pat, what in [(r'report\.delta_funding_amount_per_size\[payer\] = pack_to_funding_amount_per_size\(', 'payer delta computed by pack (rounded up)'),
-                      (r'report\.delta_claimable_funding_amount_per_size\[receiver\] =\s*pack_to_funding_amount_per_size\(', 'receiver delta computed by pack (rounded down)')]:
-        if not re.search(pat, s):
-            res.undecided.append(f'anchor lost: update_funding_state.rs: {what} (/{pat}/ not found)')
+    # no text anchors left: UpdateFundingState::set_deltas is a unit (verus/inc/funding_deltas.rs, run by verus/C12_deltas.rs)
+    return
